@@ -90,7 +90,7 @@ func VerifRegs(r *Runtime) VerifRegisters {
 }
 
 func (v VerifRegisters) Idle() bool {
-	return v.Cs == 0 && v.Ts == 0 && v.Is == 0 && v.Rs == 0 && v.Sp == 0 && v.Jobs == 0 && v.GlobalStash && !v.PrivEnv && !v.AsyncRunner
+	return v.Cs == 0 && v.Ts == 0 && v.Is == 0 && v.Rs == 0 && v.Sp == 0 && v.Jobs == 0 && v.GlobalStash && !v.PrivEnv && !v.AsyncRunner && !v.Prg
 }
 
 func verifOMap(o *Object) *orderedMap {
